@@ -396,6 +396,7 @@ def option_value_table(prog, chk):
     argv_reads_within_count(prog, chk, "C20.o")
     list_overload_count(prog, chk, "C20.p")
     reported_text_ends_at_cursor(prog, chk, "C20.q")
+    errno_only_after_failure(prog, chk, "C20.r")
 
 
 def quoted_word_typestate(prog, chk, rid):
@@ -971,3 +972,38 @@ def reported_text_ends_at_cursor(prog, chk, rid):
         raise AnalysisBroken("Process::Arguments::read: only %d reporting returns could be evaluated" % checked)
     else:
         chk.ok(rid, f, "the cursor stands at the end of the reported piece at %d reporting returns" % checked, "%s:%s" % (f.file, f.line), "evaluation over test outcomes", evals=checked)
+
+
+def errno_only_after_failure(prog, chk, rid):
+    """errno is meaningful only directly after a call that reported failure: a successful call leaves it as it was.  A retry decision
+    `errno == EINTR` taken when the call did NOT fail - read() returning 0 at end-of-file, say - acts on a stale value: after one
+    interrupted call the loop retries on end-of-file for ever and the caller never sees the end of the child's output."""
+    chk.rule(rid, "DOM: in Process.cpp every comparison of errno with EINTR is dominated by a fact that the preceding call failed (`r == -1` / "
+                  "`r < 0` true, `r >= 0` / `r != -1` false); `r <= 0` is not enough, 0 is end-of-file", floor=1)
+    n = 0
+    for f in sorted([f for f in prog.functions.values() if f.file.endswith("src/Process.cpp") and f.blocks], key=lambda g: g.sig):
+        for i, nd in enumerate(f.nodes):
+            if nd["k"] != "BinaryOperator" or nd.get("op") not in ("==", "!=") or len(nd["c"]) != 2 or f.node_pos(i) is None:
+                continue
+            sides = [q.no_casts(f.r(x)) for x in nd["c"]]
+            vals = [fin.eval_expr(f, x, {}) for x in nd["c"]]
+            if not any("__errno_location()" in t for t in sides) or 4 not in vals:
+                continue
+            n += 1
+            atoms = [a for a in fin.dominating_atoms(f, f.node_pos(i)) if a[0] != "case"]
+            failed = None
+            for a in atoms:
+                cn = fin._canon(f, a[0], a[1])
+                if len(cn) == 3 and cn[0] != "val":
+                    l, op, r = cn
+                    if (op == "==" and "-1" in (l, r)) or (op == "<" and r == "0") or (op == "<=" and r == "-1") or (op == "<" and l == "-1" and False):
+                        failed = cn
+            if failed:
+                chk.ok(rid, f, "errno compared with EINTR only after a failed call", f.where(i), "dominating fact %s %s %s" % failed, evals=len(atoms) + 1)
+            else:
+                chk.bad(rid, f, "errno-read-without-failure", f.where(i),
+                        "`%s` is evaluated on a path where the preceding call is not known to have failed (facts: %s): a result of 0 - end-of-file - "
+                        "leaves errno as an EARLIER interrupted call set it, the loop retries for ever and Process::read never reports the end of the "
+                        "stream" % (q.no_casts(f.r(i))[:40], [" ".join(map(str, fin._canon(f, a[0], a[1]))) for a in atoms][-3:]), evals=len(atoms) + 1)
+    if n == 0:
+        raise AnalysisBroken("Process.cpp: no comparison of errno with EINTR found (the select() retry of Process::read expected)")
